@@ -160,11 +160,20 @@ def c15_5(ctx):
     idx = {}
     for spec in ("shamir:ShareSet.encrypt", "shamir:ShareSet.decrypt"):
         mod, fn = rl.get(ctx, spec)
-        for st in ast.walk(fn):
-            if isinstance(st, ast.Assign) and isinstance(st.targets[0], ast.Name) and st.targets[0].id == "indices":
-                idx[spec] = f.fold(st.value)
+        # the round indices are what is handed to the shared Feistel routine (last positional argument or `indices=`)
+        for n, c in rl.find_calls(fn, "_crypt"):
+            a = next((k.value for k in c.keywords if k.arg == "indices"), c.args[4] if len(c.args) > 4 else None)
+            if a is not None:
+                v = f.fold(expand(fn, n.id, a, depth=4))
+                idx[spec] = tuple(v) if isinstance(v, (list, tuple)) else v
+        if spec not in idx:
+            for st in ast.walk(fn):
+                if isinstance(st, ast.Assign) and isinstance(st.targets[0], ast.Name) and st.targets[0].id == "indices":
+                    idx[spec] = f.fold(st.value)
     e, d = idx.get("shamir:ShareSet.encrypt"), idx.get("shamir:ShareSet.decrypt")
-    if e == (b"\x00", b"\x01", b"\x02", b"\x03") and d == tuple(reversed(e)):
+    if not isinstance(e, tuple) or not isinstance(d, tuple):
+        out.append(ctx.err("shamir:ShareSet.encrypt↔decrypt", "round indices could not be read (encrypt %s, decrypt %s)" % (e, d)))
+    elif e == (b"\x00", b"\x01", b"\x02", b"\x03") and d == tuple(reversed(e)):
         out.append(ctx.ok("shamir:ShareSet.encrypt↔decrypt", "4 Feistel rounds 0,1,2,3; decryption runs them in reverse", key="rounds"))
     else:
         out.append(ctx.bad("shamir:ShareSet.encrypt↔decrypt", "round indices: encrypt %s, decrypt %s; SLIP39: 0..3 and the exact reverse" % (e, d), key="rounds"))
